@@ -17,7 +17,7 @@
 //@ harness k4_datetime_bin  tier=quick kind=complete fn=src/value/encode.rs::<NaiveDateTime>::to_mysql_bin
 //@ harness k4_duration_bin  tier=quick kind=complete fn=src/value/encode.rs::<Duration>::to_mysql_bin
 //@ harness k4_generic_bin   tier=quick kind=complete fn=src/value/encode.rs::<myc::value::Value>::to_mysql_bin(Bytes|Float|Double)
-//@ harness k4_generic_date_bin tier=thorough kind=complete fn=src/value/encode.rs::<myc::value::Value>::to_mysql_bin(Date|Time)
+//@ harness k4_generic_date_bin tier=quick kind=complete fn=src/value/encode.rs::<myc::value::Value>::to_mysql_bin(Date,every-column-type)
 //@ clause C07.bin.bytes    byte strings: Ok exactly on the 14 string-like column types, writing lenenc_str(bytes) for every length; else Err, nothing written
 //@ clause C07.bin.float    f32 -> FLOAT 4 bytes / DOUBLE 8 bytes (widened), f64 -> DOUBLE 8 bytes, IEEE bits little-endian; else Err
 //@ clause C07.bin.date     NaiveDate -> DATE: [4, year lo, year hi, month, day]; else Err
@@ -417,19 +417,33 @@ pub fn k4_generic_date_bin() {
     let (y, mo, d, h, mi, s): (u16, u8, u8, u8, u8, u8) = (vk::any(), vk::any(), vk::any(), vk::any(), vk::any(), vk::any());
     let us: u32 = vk::any();
     vk::assume(y <= 9999 && us < 1_000_000);
-    let c = col(ColumnType::MYSQL_TYPE_DATETIME, false);
+    // every column type: a date-time can be carried by DATETIME / TIMESTAMP, by DATE only when it has no time of
+    // day, and by nothing else
+    let c = match any_col() {
+        Some(c) => c,
+        None => return,
+    };
+    let ct = c.coltype;
     let mut b = Buf::<16>::new();
     let r = noerr(V::Date(y, mo, d, h, mi, s, us).to_mysql_bin(&mut b, &c));
     if r.is_ok() {
         vk_cover!(us != 0, "cover: generic datetime with micros");
-        vk_assert!(u16::from_le_bytes([b.b[1], b.b[2]]) == y && b.b[3] == mo && b.b[4] == d, "[C07.bin.generic] generic date part differs");
-        vk_assert!(b.b[5] == h && b.b[6] == mi && b.b[7] == s, "[C07.bin.generic] generic time part differs");
-        if us != 0 {
-            vk_assert!(b.b[0] == 11 && u32::from_le_bytes([b.b[8], b.b[9], b.b[10], b.b[11]]) == us, "[C07.bin.generic] generic micros differ");
+        if ct == ColumnType::MYSQL_TYPE_DATETIME || ct == ColumnType::MYSQL_TYPE_TIMESTAMP {
+            vk_assert!(u16::from_le_bytes([b.b[1], b.b[2]]) == y && b.b[3] == mo && b.b[4] == d, "[C07.bin.generic] generic date part differs");
+            vk_assert!(b.b[5] == h && b.b[6] == mi && b.b[7] == s, "[C07.bin.generic] generic time part differs");
+            if us != 0 {
+                vk_assert!(b.b[0] == 11 && u32::from_le_bytes([b.b[8], b.b[9], b.b[10], b.b[11]]) == us, "[C07.bin.generic] generic micros differ");
+            } else {
+                vk_assert!(b.b[0] == 7, "[C07.bin.generic] generic datetime length form");
+            }
+        } else if ct == ColumnType::MYSQL_TYPE_DATE {
+            vk_assert!(h == 0 && mi == 0 && s == 0 && us == 0, "[C07.bin.generic] a date-time with a time of day was accepted for a DATE column (the client decodes a different value)");
+            vk_assert!(b.n == 5 && b.b[0] == 4 && u16::from_le_bytes([b.b[1], b.b[2]]) == y && b.b[3] == mo && b.b[4] == d, "[C07.bin.generic] generic date for a DATE column differs");
         } else {
-            vk_assert!(b.b[0] == 7, "[C07.bin.generic] generic datetime length form");
+            vk_assert!(false, "[C07.bin.generic] a date-time was accepted for a column type that cannot carry it");
         }
     } else {
+        vk_cover!(ct == ColumnType::MYSQL_TYPE_DATE, "cover: a generic date-time is refused for a DATE column");
         vk_assert!(b.n == 0, "[C07.bin.refuse] refused generic date left bytes behind");
     }
 }
